@@ -22,6 +22,11 @@ def universe(t, rng, size, pid):
     k = t[0]
     if k == "int":
         vals = [dict(t="int", n=n) for n in (0, 1, 2, -1, 3)]
+    elif k == "f64":
+        # halves; nil marks the negative zero (the same abstract value as the positive one)
+        vals = [dict(t="int", n=0), dict(t="int", n=0, nil=True), dict(t="int", n=1), dict(t="int", n=-1), dict(t="int", n=3), dict(t="int", n=-4)]
+    elif k == "time":
+        vals = [dict(t="int", n=n) for n in (0, 3, 2, 5, 1, 4, 6)]
     elif k == "str":
         vals = [dict(t="str", cs=cs) for cs in ([], [97], [98], [97, 98], [97, 97], [98, 97])]
     elif k == "bytes":
